@@ -18,6 +18,7 @@ def case(rng):
     # build the chain from the innermost callee outwards
     cls_name = r.choice(['Error', 'ValueError', 'TypeError', 'RuntimeError', 'MyErr'])
     stmts.append(Class('MyErr', 'Error', None, []))
+    stmts.append(Class('NeverErr', 'Error', None, []))
     msg = 'msg%d' % uniq()
     raise_kind = r.choice(['raise', 'raise', 'raise_inner', 'operator', 'index', 'arity', 'notcallable'])
     tags.add('site:' + raise_kind)
@@ -42,7 +43,26 @@ def case(rng):
         exp_cls = 'RuntimeError'
     # padding statements before the site so lines vary
     def pad():
-        return [Let('pad%d' % uniq(), Num(uniq())) for _ in range(r.randint(0, 2))]
+        out = []
+        for _ in range(r.randint(0, 2)):
+            if r.random() < 0.25:
+                # a string value with line breaks: printed as a literal spanning several physical lines
+                tags.add('pad:multiline-string')
+                out.append(Let('pad%d' % uniq(), Str('\n'.join('row%d' % uniq() for _ in range(r.randint(2, 4))))))
+            else:
+                out.append(Let('pad%d' % uniq(), Num(uniq())))
+        return out
+
+    def guard(body_stmts):
+        # handlers that are searched and do not match: zero, one or two try blocks around the failing statement in
+        # the same frame, each with one or two non-matching clauses
+        n_try = r.choice([0, 0, 1, 1, 2])
+        for _ in range(n_try):
+            tags.add('frame:nonmatching-try')
+            clauses = [('q%d' % uniq(), 'NeverErr', [Print([Str('wrong handler')])])
+                       for _ in range(r.randint(1, 2))]
+            body_stmts = pad() + [Try(body_stmts, clauses)] + pad()
+        return body_stmts
     callee = None        # expression that, when evaluated as a statement, calls into the chain
     levels = []
     inner_call = None
@@ -50,7 +70,7 @@ def case(rng):
         kind = r.choice(['fn', 'fn', 'method', 'init', 'lambda_let', 'native_each', 'native_map', 'native_reduce',
                          'static'])
         name = 'lvl%d' % d
-        body = pad() + (site if inner_call is None else [ExprS(inner_call)]) + pad()
+        body = pad() + guard(site if inner_call is None else [ExprS(inner_call)]) + pad()
         tags.add('frame:' + kind)
         if kind == 'fn':
             stmts.append(Fn(name, ['a'], body))
